@@ -2,6 +2,7 @@ package main
 
 import (
 	"go/constant"
+	"go/types"
 	"strings"
 	"unicode"
 
@@ -174,11 +175,26 @@ func ruleSanitiserSites(r *Run) {
 			fn = jsonExtractRole(p, s.fn)
 		}
 		o := r.Ob("PV-API", "logqlengine."+s.fn+" keys", "every "+s.desc+" key becomes a label only through KeyToLabel, unconditionally")
-		if fn == nil || len(fn.AnonFuncs) == 0 {
+		var cl *ssa.Function
+		if fn != nil && len(fn.AnonFuncs) > 0 {
+			cl = fn.AnonFuncs[0]
+		} else if fn != nil {
+			// the per-key callback is a named function or a method value handed to the iteration
+			for _, c := range callsIn(fn) {
+				for _, a := range c.Common().Args {
+					if _, isSig := a.Type().Underlying().(*types.Signature); !isSig {
+						continue
+					}
+					if f, _ := predicateOf(a); f != nil && f.Blocks != nil && pkgOfFunc(f) == pkgOfFunc(fn) && cl == nil {
+						cl = f
+					}
+				}
+			}
+		}
+		if fn == nil || cl == nil {
 			o.Fail("-", "function/closure not found")
 			continue
 		}
-		cl := fn.AnonFuncs[0]
 		var keyParam ssa.Value
 		for _, prm := range cl.Params {
 			if isStringType(prm.Type()) {
